@@ -184,3 +184,39 @@ Proof.
   split; [exact curve_name_fast_eq | split; [exact container_info_fast_eq | split; [exact describe_fast_eq | exact describe_history_fast_eq]]].
 Qed.
 Print Assumptions C16_runner_is_the_model.
+
+(* ---------- inference is a function of the parameter RECORD ----------
+   [infer_row p] is the table row CurveNameFromParameters settles on.  It is row [c] exactly when
+   [c] is in the table and every component of [p], each taken separately with its own length,
+   equals the row's ([components_eqb]: decidable, componentwise): field type, prime (as a number
+   against the value of the row's key), a, b (octet strings), seed (equal or absent), order, base
+   point (04||Gx||Gy, or 02/03||Gx with the parity of Gy). *)
+Theorem C16_componentwise : forall p c,
+  infer_row p = Ok (Some c) <-> (In c table /\ components_eqb c p = true).
+Proof.
+  intros p c. split.
+  - exact (infer_row_componentwise p c).
+  - intros [Hin H]. exact (componentwise_infer_row p c Hin H).
+Qed.
+Print Assumptions C16_componentwise.
+
+(* two parameter records with componentwise equal field type, prime, a, b, seed, base point and order
+   get the same answer -- and nothing else enters: [infer], [curve_name], [describe] have no other
+   argument, so an answer cannot depend on what was examined before (describe_history = map describe) *)
+Theorem C16_function_of_the_record : forall p q, params_eqb p q = true ->
+  infer_row p = infer_row q /\ infer p = infer q /\ curve_name p = curve_name q.
+Proof. exact params_eqb_infer. Qed.
+Print Assumptions C16_function_of_the_record.
+
+(* a matcher that remembers successful matches under a key made of the components written one after
+   another WITHOUT their lengths refutes the property: genuine P-256 and the set with the last octet
+   of a moved to the front of b have the same key and are not componentwise equal; the model names
+   the first and not the second, the memoising matcher names the second too once it has seen the
+   first -- and not when it sees it first *)
+Theorem C16_concatenation_key_refuted :
+  exists g d, concat_key g = concat_key d /\ params_eqb g d = false /\
+    infer g = Ok (Some (bs "P-256")) /\ infer d = Ok None /\ ~ exact nist_p256 d /\
+    infer_memo_seq [] [g; d] = [Ok (Some (bs "P-256")); Ok (Some (bs "P-256"))] /\
+    infer_memo_seq [] [d; g] = [Ok None; Ok (Some (bs "P-256"))].
+Proof. exists (genuine_params nist_p256 false true 1), witness_shift. exact concat_key_refuted. Qed.
+Print Assumptions C16_concatenation_key_refuted.
